@@ -1874,6 +1874,9 @@ func (e *Exec) call(st *State, c *ssa.Call) string {
 				st.assume = append(st.assume, "false")
 			}
 			k := st.snaps["callno:"+fc.Name]
+			for i, a := range args { // arguments of the k-th call, for callarg()
+				st.snaps[fmt.Sprintf("arg:%s#%s.%d", key, k, i)] = a
+			}
 			for i, part := range strings.Split(r, "\x00") {
 				if part != "" && i < c.Call.Signature().Results().Len() {
 					st.snaps[fmt.Sprintf("res:%s#%s.%d", key, k, i)] = e.sorts.SortOf(c.Call.Signature().Results().At(i).Type()) + "\x01" + part
